@@ -364,6 +364,8 @@ ERespond ==
   /\ Consume /\ Ev.e = "respond"
   /\ LET rq == reqs[Ev.r]
          ticks == IF Ev.err /\ Ev.body.status \in FaultStatuses /\ Ev.r \in faulted THEN {Ev.t}
+                  \* the router could not be consulted: the create fails without effect
+                  ELSE IF Ev.err /\ Ev.body.status = MATCH_ERROR /\ Ev.r \in rerr THEN {Ev.t}
                   ELSE LinTicks(Ev.r, rq, Ev.body, Ev.t)
          lin == ticks # {}
          bodies == BodiesOf(rq.kind, Ev.body)
